@@ -161,15 +161,41 @@ theorem aten_roll_len_agrees_partial (d big : Nat) (shift : Int) (hbig : d ≤ b
 theorem aten_roll_large_shift_refuted :
     roll.stepIdx 3 3 7 = [0, 1, 2] ∧ roll.specIdx 3 7 = [2, 0, 1] := by decide
 
-/-- FINDING C08-roll-negative-last-dim: `roll(x[2,3], 1, -1)` — `Shape(x, start=-1, end=0)` is empty,
-the runtime refuses the `Slice`; PyTorch returns `[2,3]`. -/
-theorem aten_roll_negative_last_dim_refuted :
-    roll.model [2, 3] [1] [-1] = none ∧ roll.spec [2, 3] [1] [-1] = some [2, 3] := by decide
+/-- Regression guard for fix e681d51 (was finding C08-roll-negative-last-dim): `roll(x[2,3], 1, -1)` now has
+PyTorch's shape. -/
+theorem aten_roll_negative_last_dim_fixed :
+    roll.model [2, 3] [1] [-1] = roll.spec [2, 3] [1] [-1] := by decide
+
+/-- Regression guard (a first version of the roll fix failed here): several dims with a later negative one. -/
+theorem aten_roll_multi_negative_dim_ok :
+    roll.model [2, 3, 4] [4, 0] [2, -2] = roll.spec [2, 3, 4] [4, 0] [2, -2] := by decide
 
 /-- FINDING C08-chunk-uneven: `chunk(x[6], 4)`: PyTorch returns 3 pieces of 2; `Split(num_outputs=4)`
 is refused by the runtime. -/
 theorem aten_chunk_uneven_refuted :
     chunk.model [6] 4 0 = none ∧ chunk.spec [6] 4 0 = some [[2], [2], [2]] := by decide
+
+/-- `aten_chunk` when the axis divides evenly (`d = q·n`): `Split(num_outputs=n)` yields PyTorch's `n` pieces of
+`q`, for all `q ≥ 1`, `n ≥ 2`. -/
+theorem aten_chunk_even_agrees_partial (q n : Nat) (hq : 0 < q) (hn : 1 < n) :
+    splitNumOutputs (q * n) n = some (chunk.specSizes (q * n) n) :=
+  OV.Lemmas.C08.chunk_even q n hq hn
+
+/-- `aten_split` sizes for every non-empty axis and every positive split size: `SplitToSequence`'s full chunks
++ remainder are PyTorch's `num = ceil(d/size)` pieces with last `size - (size·num - d)`.  (`d = 0` is the
+finding below.) -/
+theorem aten_split_sizes_agree_partial (d c : Nat) (hd : 0 < d) (hc : 0 < c) :
+    splitScalar d c = split.specSizes d c :=
+  OV.Lemmas.C08.split_sizes d c hd hc
+
+/-- `aten_roll` with one `(shift, dim)` pair — any rank ≥ 1, any valid `dim` (negative included, after fix
+e681d51), `-d ≤ shift ≤ 2d`, no zero-size dim hiding the axis (`d ≤ numel`): the result has the input's shape. -/
+theorem aten_roll_shape_agrees_partial (s : Shape) (shift dim : Int) (a : Nat)
+    (h0 : s.length ≠ 0) (hz : s.getD 0 0 ≠ 0) (ha : normAxis s.length dim = some a)
+    (hn : s.getD a 0 ≤ numel s)
+    (h1 : -((s.getD a 0 : Nat) : Int) ≤ shift) (h2 : shift ≤ 2 * ((s.getD a 0 : Nat) : Int)) :
+    roll.model s [shift] [dim] = some s :=
+  OV.Lemmas.C08.roll_shape_one s shift dim a h0 hz ha (OV.Lemmas.C08.roll_len _ _ shift hn h1 h2)
 
 /-- FINDING C08-split-zero-dim: `split(x[0,2], 3, 0)`: PyTorch returns one empty piece, the
 `SplitToSequence` an empty sequence. -/
@@ -182,6 +208,23 @@ theorem aten_split_zero_dim_refuted :
 same position, same refusals, for every shape and every `dim`. -/
 theorem aten_unsqueeze_agrees (s : Shape) (dim : Int) : unsqueeze.model s dim = unsqueeze.spec s dim :=
   OV.Lemmas.C08.unsqueeze_agrees s dim
+
+/-- `aten_permute` with explicit dims: the code wraps negatives against `len(dims)`, PyTorch against the rank;
+wherever PyTorch accepts (a permutation of the axes), `Transpose(perm)` has PyTorch's shape — every rank. -/
+theorem aten_permute_agrees (s : Shape) (dims : List Int) (out : Shape) (hne : dims ≠ [])
+    (h : permute.spec s dims = some out) : permute.model s dims = some out :=
+  OV.Lemmas.C08.permute_agrees s dims out hne h
+
+/-- `aten_expand`: mapping `-1 ↦ 1` and ONNX's two-way broadcast give `torch.expand`'s shape wherever PyTorch
+accepts the size — all ranks, new leading dims, 0-size dims, `-1` entries. -/
+theorem aten_expand_agrees (s : Shape) (size : List Int) (out : Shape)
+    (h : expand.spec s size = some out) : expand.model s size = some out :=
+  OV.Lemmas.C08.expand_agrees s size out h
+
+/-- `aten_broadcast_to` does not map `-1`: agreement needs a size without `-1` (finding C08-broadcast-to-neg1). -/
+theorem aten_broadcast_to_agrees_partial (s : Shape) (size : List Int) (out : Shape) (hn : ∀ d ∈ size, d ≠ -1)
+    (h : broadcast_to.spec s size = some out) : broadcast_to.model s size = some out :=
+  OV.Lemmas.C08.broadcast_to_agrees s size out hn h
 
 /-- `aten_t`: every shape of rank ≤ 2. -/
 theorem aten_t_agrees (s : Shape) (h : s.length ≤ 2) : t.model s = t.spec s := by
@@ -241,10 +284,25 @@ theorem aten_arange_len_characterisation (start stop step : Int) (hs : 0 < step)
     i < arange.modelLen start stop step ↔ start + (i : Int) * step < stop :=
   OV.Lemmas.C08.range_len_char start stop step hs i
 
-/-- FINDING C08-cat-legacy-empty: `cat([x[2,3], e[0], x[2,3]], 1)` — PyTorch skips the legacy empty tensor;
-`aten_cat` filters it only to choose between `Identity` and `Concat` and then concatenates all inputs. -/
-theorem aten_cat_legacy_empty_refuted :
-    cat.model [[2, 3], [0], [2, 3]] 1 = none ∧ cat.spec [[2, 3], [0], [2, 3]] 1 = some [2, 6] := by decide
+/-- Regression guard for fix 68ff4be (was finding C08-cat-legacy-empty): `cat([x[2,3], e[0], x[2,3]], 1)`. -/
+theorem aten_cat_legacy_empty_fixed :
+    cat.model [[2, 3], [0], [2, 3]] 1 = cat.spec [[2, 3], [0], [2, 3]] 1 := by decide
+
+/-- `aten_cat` (after fix 68ff4be), every list of shapes and every `dim`: wherever PyTorch accepts the call and at
+least one tensor survives the legacy-empty filter, the emitted `Identity`/`Concat` has PyTorch's shape. -/
+theorem aten_cat_agrees_partial (ss : List Shape) (dim : Int) (out : Shape)
+    (hne : ss.filter (· != [0]) ≠ []) (h : cat.spec ss dim = some out) : cat.model ss dim = some out :=
+  OV.Lemmas.C08.cat_agrees ss dim out hne h
+
+/-- `aten_tile` when `dims` is not longer than the rank (the left-padding branch and the equal-length branch):
+same shape, same refusals as `torch.tile`, all shapes. -/
+theorem aten_tile_agrees_partial (s : Shape) (dims : List Int) (h : dims.length ≤ s.length) :
+    tile.model s dims = tile.spec s dims :=
+  OV.Lemmas.C08.tile_agrees s dims h
+
+/-- FINDING C08-cat-all-empty: `cat([e[0]])` — PyTorch returns `[0]`; `aten_cat` asserts. -/
+theorem aten_cat_all_empty_refuted :
+    cat.model [[0]] (-1) = none ∧ cat.spec [[0]] (-1) = some [0] := by decide
 
 /-- `aten_stack` of `n ≥ 1` equal shapes at a valid `dim`: `Unsqueeze` each, `Concat`. -/
 theorem aten_stack_two_agrees (a b : Nat) :
